@@ -141,7 +141,17 @@ func c07Judge(raw string, u *j.URL) (string, string) {
 		if !ok {
 			return "include-not-requested", fmt.Sprintf("inclusion path %q was not requested (include=%v)", p, requested)
 		}
+		if gotPaths[p] {
+			return "include-redundant:duplicate", fmt.Sprintf("inclusion path %q is returned twice (include=%v)", p, requested)
+		}
 		gotPaths[p] = true
+	}
+	for p := range gotPaths {
+		for other := range gotPaths {
+			if strings.HasPrefix(other, p+".") {
+				return "include-redundant:extended", fmt.Sprintf("inclusion path %q is kept although the kept path %q extends it (include=%v)", p, other, requested)
+			}
+		}
 	}
 	for _, rq := range requested {
 		if !validPath(rq) || gotPaths[rq] {
@@ -419,7 +429,7 @@ func init() {
 	Register(&Prop{
 		ID: "C07",
 		Rule: "Engine A: (a) every path of 0..6 fragments over per-position alphabets (types incl. one-attribute, field-less and self-referential ones, unknown word, percent-escape, malformed escape, id, 'relationships', 'meta', every relationship name) x 4 decorations x {soft, struct-backed} schema; (b) 16 representative paths x every ordered sequence with repetition of 0..2 (thorough 3) query parameters from a menu of ~100 instances (fields[] with valid/unknown/duplicate/id/empty lists for known, unknown and empty types; sort with repeats, '-', id, unknown names, empty items; include with names that are string prefixes of one another, unknown names, nested paths to depth 3, self-reference; page[]; filter labels, empty value, JSON trees, malformed JSON; unknown and malformed parameter names); the iteration order of the query-parameter map is a deviation-bounded choice (bound 1). (c) three parses interleaved with edits (RemoveAttr/AddAttr/AddRel/RemoveRel/rename) of the SAME schema object, each compared with a parse against a freshly built equal schema. Oracle: no panic, exactly one of (URL, error), and an independent reading of the request (net/url + the type table) for ResType, field selection, inclusion chains and sorting rules. Non-trivial = URL with >= 2 parameters / any path",
-		Assumptions: []string{"a valid requested inclusion path must be kept unless another REQUESTED path (valid or not) extends it by a dotted prefix (weaker reading)", "multiplicity of repeated inclusion paths is not judged"},
+		Assumptions: []string{"a valid requested inclusion path must be kept unless another REQUESTED path (valid or not) extends it by a dotted prefix (weaker reading)", "'kept unless a longer requested path extends it' is read as: an extended or repeated path is not returned a second time (the result is an antichain without duplicates)"},
 		Harnesses: []Harness{
 			{Name: "C07/query", Body: c07Query, Dev: func() int { return 1 }},
 			{Name: "C07/paths", Body: c07Paths, Dev: func() int { return 1 }},
